@@ -254,7 +254,12 @@ func ensureBuild(want []string) (*buildInfo, error) {
 		if err := copyTree(repoDir(), plain, skip); err != nil {
 			return nil, err
 		}
-		if err := copyTree(filepath.Join(verifDir, "overlay", "plain"), plain, nil); err != nil {
+		// the un-instrumented tree gets the runtime package (idle: nothing calls the seams)
+		// and the engine files, but is NOT rewritten by simgen
+		if err := copyTree(filepath.Join(verifDir, "overlay", "internal"), filepath.Join(plain, "internal"), nil); err != nil {
+			return nil, err
+		}
+		if err := copyTree(filepath.Join(verifDir, "overlay", "engines"), plain, nil); err != nil {
 			return nil, err
 		}
 	}
